@@ -195,6 +195,10 @@ impl Check for C13 {
             "the 'if' direction (authentic quotes do verify, consistent quote pairs are not flagged) is a sanity control: its failure is reported as inconclusive, not as a violation, because the statement only demands 'only if'".into(),
         ]
     }
+    fn hang_cpu_budget(&self, _tier: Tier) -> Option<std::time::Duration> {
+        // a case of this check is a few milliseconds of computation; one that has burnt two minutes of CPU time is not coming back
+        Some(std::time::Duration::from_secs(120))
+    }
     fn cases(&self, tier: Tier) -> u64 {
         tier.pick(9_000, 60_000)
     }
